@@ -16,7 +16,7 @@ class LoggedProblem:
     """factory for a Problem subclass instance that logs every Calculate call"""
 
     @staticmethod
-    def make(fn, lower, upper, fail_at=None, exc=None, fresh_holder=False):
+    def make(fn, lower, upper, fail_at=None, exc=None, fresh_holder=False, n_discrete=0, int_bounds=None):
         """fresh_holder: Calculate leaves the holder it was given untouched and RETURNS a new FunctionValue carrying the value
         (the Problem interface returns the holder and the library is written against the returned object)"""
         from iOpt.problem import Problem
@@ -30,9 +30,21 @@ class LoggedProblem:
                 self.numberOfFloatVariables = n
                 self.numberOfObjectives = 1
                 self.numberOfConstraints = 0
+                if n_discrete:
+                    # declared discrete parameters (this solver version works on the float variables only and ignores them)
+                    self.numberOfDisreteVariables = n_discrete
+                    self.discreteVariableNames = [f"d{i}" for i in range(n_discrete)]
                 self.floatVariableNames = np.array([f"x{i}" for i in range(n)], dtype=str)
                 self.lowerBoundOfFloatVariables = np.array(lower, dtype=np.double)
                 self.upperBoundOfFloatVariables = np.array(upper, dtype=np.double)
+                if int_bounds and all(float(v).is_integer() for v in list(lower) + list(upper)):
+                    # an integer-valued box declared with integer-typed bounds (Python ints or an int64 array)
+                    if int_bounds == "list":
+                        self.lowerBoundOfFloatVariables = [int(v) for v in lower]
+                        self.upperBoundOfFloatVariables = [int(v) for v in upper]
+                    else:
+                        self.lowerBoundOfFloatVariables = np.array(lower, dtype=np.int64)
+                        self.upperBoundOfFloatVariables = np.array(upper, dtype=np.int64)
                 self.log = []          # (phase, point tuple, value, holder id)
                 self.ncalls_global = 0
                 self.fail_at = fail_at  # 1-based index among global-phase calls
